@@ -4,6 +4,7 @@
 \* quick:    main MAXLEN=4 FULLLEN=2 KEEP=220 (about 19k texts);  ext MAXLEN=2 exhaustive (15 577 texts)
 \* thorough: main MAXLEN=4 exhaustive (813 801 texts) + MAXLEN=5 FULLLEN=0 KEEP=150 (1.5% sample);
 \*           ext MAXLEN=3 FULLLEN=2 KEEP=2000 (20% sample of the 3-lexeme strings)
+\* ALPHA=rules: 16 rule templates x 14^3 slot fillers = 43 904 programs; quick KEEP=1000 (10%), thorough all.
 SPECIFICATION Spec
 INVARIANT Emit
 CHECK_DEADLOCK FALSE
